@@ -139,6 +139,8 @@ type Explorer struct {
 	pendingK uint64
 	nseq    int
 	nondetOrder bool
+	nondetAt    int // -1: permute every map iteration; k: only the k-th one since enabling
+	nondetSeen  int
 	frozen  *frozenSet
 	writes  []string
 	lastPos token.Pos
@@ -597,7 +599,7 @@ func (ex *Explorer) assume(cond value) {
 // ---- running paths ----
 
 func (w *worker) runPath(fn *ssa.Function, item workItem) (newWork []workItem) {
-	ex := &Explorer{cfg: w.cfg, w: w, prefix: item.prefix}
+	ex := &Explorer{cfg: w.cfg, w: w, prefix: item.prefix, nondetAt: -1}
 	if item.model != nil {
 		ex.model, ex.modelOK = item.model, true
 	} else {
